@@ -361,6 +361,12 @@ class C17(Check):
             assert t['SPPIXMASK']['BADSKYCHI'] == b1 and t['SPPIXMASK']['REDMONSTER'] == b2, name
             self._tables[name], self._table_files[name] = t, path
         assert SD.maskbits['SPPIXMASK']['BADSKYCHI'] == BADSKYCHI and SD.maskbits['SPPIXMASK']['REDMONSTER'] == REDMONSTER
+        self.brd.attach(self.rec, M, 'djs_reject', every=5, own=True)
+        self.brd.attach(self.rec, M, 'djs_median', every=5, own=True)
+        self.brd.attach(self.rec, I, 'djs_maskinterp1', every=5, own=True)
+        self.brd.attach(self.rec, I, 'djs_maskinterp', every=5, own=True)
+        self.brd.attach(self.rec, S2, 'aesthetics', every=5, own=True)
+        self.brd.attach(self.rec, S1, 'skymask', every=5, own=True)
         self.rec.wrap(M, 'djs_reject')
         self.rec.wrap(M, 'djs_median')
         self.rec.wrap(I, 'djs_maskinterp1')
